@@ -1,15 +1,23 @@
 #!/bin/bash
-# tools/reseed.sh <seeded-name>... : re-run the quick check of each stored seeded change against a scratch worktree with the patch applied
+# tools/reseed.sh <seeded-name>... | --all : re-run the quick check of each stored seeded change against a scratch
+# worktree of /repo with the patch applied; prints one line per change and a summary.  Uses the checkout it lives in.
 export GOFLAGS=-mod=mod GOPROXY=off GOSUMDB=off GOTOOLCHAIN=local
+V=$(cd "$(dirname "$0")/.." && pwd)
+if [ "${1:-}" = "--all" ]; then set -- $(ls $V/seeded | grep -E '^C[0-9]+-w[0-9]+-[0-9]+$'); fi
+CAUGHT=0; MISSED=0; OTHER=0
 for NAME in "$@"; do
-  P=$(python3 -c "import json;print(json.load(open('/verif/seeded/$NAME/meta.json'))['property'])")
+  P=$(python3 -c "import json;print(json.load(open('$V/seeded/$NAME/meta.json'))['property'])")
   D=/var/tmp/reseed-$$-$NAME
   git -C /repo worktree add -q $D HEAD || exit 9
-  if (cd $D && git apply /verif/seeded/$NAME/patch.diff && go build ./...); then
-    R=$(VERIF_REPO=$D /verif/check $P quick 2>&1 | grep -a "^$P quick\|^violation" | cut -c1-150 | head -4 | tr '\n' ' ')
-    echo "$NAME $P: $R"
+  if (cd $D && git apply $V/seeded/$NAME/patch.diff && go build ./...); then
+    VERIF_REPO=$D $V/check $P quick > /var/tmp/reseed-$$.log 2>&1; RC=$?
+    R=$(grep -a "^violation" /var/tmp/reseed-$$.log | sed 's/.*key=\(.*\) occurrences.*/\1/' | cut -c1-70 | head -2 | tr '\n' ';')
+    echo "$NAME $P exit=$RC $R"
+    case $RC in 1) CAUGHT=$((CAUGHT+1));; 0) MISSED=$((MISSED+1));; *) OTHER=$((OTHER+1));; esac
   else
-    echo "$NAME: PATCH NO LONGER APPLIES OR BUILDS"
+    echo "$NAME: PATCH NO LONGER APPLIES OR BUILDS"; OTHER=$((OTHER+1))
   fi
   git -C /repo worktree remove --force $D
 done
+rm -f /var/tmp/reseed-$$.log
+echo "SUMMARY caught=$CAUGHT not-caught=$MISSED other=$OTHER"
